@@ -52,6 +52,10 @@ type HSConfig struct {
 	// server->client) and read fragmentation.
 	HookC2S, HookS2C   func(idx int, p []byte) [][]byte
 	ReadMaxC, ReadMaxS func() int
+	// EphSeed, if non-zero, makes both machines draw their ephemeral keys
+	// from a PRNG seeded with it, so that a session can be reproduced
+	// bit for bit.
+	EphSeed int64
 }
 
 // HSResult is the outcome of a handshake experiment.
@@ -86,13 +90,20 @@ func RunHandshake(cfg HSConfig) *HSResult {
 	s := newSide(cfg.KeyS, remS, cfg.PassS, cfg.Auth)
 	res := &HSResult{C: c, S: s}
 
+	var ephC, ephS func() (*btcec.PrivateKey, error)
+	if cfg.EphSeed != 0 {
+		rc := rand.New(rand.NewSource(cfg.EphSeed))
+		rs := rand.New(rand.NewSource(cfg.EphSeed + 1))
+		ephC = func() (*btcec.PrivateKey, error) { return NewKey(rc).PrivKey, nil }
+		ephS = func() (*btcec.PrivateKey, error) { return NewKey(rs).PrivKey, nil }
+	}
 	c.M, c.NewErr = mailbox.NewBrontideMachine(&mailbox.BrontideMachineConfig{
 		Initiator: true, HandshakePattern: c.CD.HandshakePattern(), ConnData: c.CD,
-		MinHandshakeVersion: cfg.CMin, MaxHandshakeVersion: cfg.CMax,
+		MinHandshakeVersion: cfg.CMin, MaxHandshakeVersion: cfg.CMax, EphemeralGen: ephC,
 	})
 	s.M, s.NewErr = mailbox.NewBrontideMachine(&mailbox.BrontideMachineConfig{
 		Initiator: false, HandshakePattern: s.CD.HandshakePattern(), ConnData: s.CD,
-		MinHandshakeVersion: cfg.SMin, MaxHandshakeVersion: cfg.SMax,
+		MinHandshakeVersion: cfg.SMin, MaxHandshakeVersion: cfg.SMax, EphemeralGen: ephS,
 	})
 	if c.NewErr != nil || s.NewErr != nil {
 		return res
